@@ -10,7 +10,7 @@ import hashlib
 
 from codebasin import report
 from codebasin.preprocessor import CodeNode
-from native import gen, sysrun, cli
+from native import gen, sysrun, cli, refpp
 from native.systarget import SysTarget
 
 
@@ -168,20 +168,19 @@ class Coverage(SysTarget):
         recs = json.load(open(covp))
         cb = CodeBase(src, exclude_patterns=list(case["excludes"]))
         members = sorted(cb)
-        # expectation from the in-process single-platform analysis
-        _, st1 = sysrun.real_find(sb.root, {"cli": cfg[p]}, [src], case["excludes"])
+        # expectation from the statement: the counted lines of the file (the model knows which physical lines hold code),
+        # split by whether the reference preprocessor uses them for this platform -- not read back from the tool's own nodes
+        ref = {(os.path.realpath(f), ln) for f, ln in exp[p][0]}
+        model = {os.path.realpath(sb.abs(rel)): lines for rel, lines in case["files"].items()}
         want = {}
         for f in members:
             if os.path.islink(f) and os.path.realpath(f) in cb:
                 continue                      # a link whose target is in the code base adds nothing (C15)
-            tree, assoc = st1.get_tree(f), st1.get_map(f)
-            u, n = [], []
-            for nd in tree.walk():
-                if isinstance(nd, CodeNode):
-                    (u if assoc[nd] else n).extend(nd.lines)
+            rf = os.path.realpath(f)
+            cnt = [no for no, ln in enumerate(model[rf], start=1) if refpp.counted(ln)]
             with open(f, "rb") as fh:
                 h = hashlib.sha512(fh.read()).hexdigest()
-            want[os.path.relpath(f, src)] = (h, sorted(u), sorted(n))
+            want[os.path.relpath(f, src)] = (h, [n for n in cnt if (rf, n) in ref], [n for n in cnt if (rf, n) not in ref])
         got = {}
         for r in recs:
             if r["file"] in got:
@@ -198,9 +197,9 @@ class Coverage(SysTarget):
 
 
 TARGETS = {
-    "codebasin.finder:ParserState.get_setmap": Reports("reports", ("multi", "links", "exclude", "zerosloc"), quick_n=150, thorough_n=3000),
-    "codebasin.report:FileTree.insert": TreeReport("tree", ("multi", "links", "exclude", "zerosloc"), quick_n=150, thorough_n=3000),
-    "codebasin.coverage.__main__:_compute": Coverage("coverage", ("links", "exclude", "dupes", "zerosloc"), quick_n=10, thorough_n=150),
+    "codebasin.finder:ParserState.get_setmap": Reports("reports", ("multi", "links", "exclude", "zerosloc", "mlcomment"), quick_n=150, thorough_n=3000),
+    "codebasin.report:FileTree.insert": TreeReport("tree", ("multi", "links", "exclude", "zerosloc", "mlcomment"), quick_n=150, thorough_n=3000),
+    "codebasin.coverage.__main__:_compute": Coverage("coverage", ("links", "exclude", "dupes", "zerosloc", "mlcomment"), quick_n=10, thorough_n=150),
 }
 TARGETS["codebasin.finder:ParserState.get_setmap"].proved = True
 
